@@ -1,9 +1,10 @@
 #!/bin/bash
-# usage: tools/seed_confirm.sh <PROP> <N> <tier> <CHECK>...
+# usage: [WT=/tmp/seed4_<PROP> AS=<k>] tools/seed_confirm.sh <PROP> <N> <tier> <CHECK>...
+# (WT: scratch worktree if not /tmp/seed_<PROP>; AS: store as /verif/seeded/<PROP>-<k> instead of <PROP>-<N>)
 # Confirms seeded change N of /tmp/seed_<PROP>/_out in that scratch worktree (suite passes with it, demo fails with / passes without),
 # stores it under /verif/seeded/<PROP>-<N>/ and runs the named checks against a scratch copy with the change.
 P="$1"; N="$2"; TIER="$3"; shift 3
-WT=/tmp/seed_$P; OUT=$WT/_out; D=/verif/seeded/$P-$N
+WT=${WT:-/tmp/seed_$P}; OUT=$WT/_out; AS=${AS:-$N}; D=/verif/seeded/$P-$AS
 [ -f "$OUT/change$N.diff" ] || { echo "no change$N.diff"; exit 2; }
 git -C $WT checkout -q -- reactivex
 ( cd $WT && PYTHONPATH=$WT timeout 600 /venv/bin/python _out/demo$N.py >/dev/null 2>&1 ); base=$?
@@ -19,7 +20,7 @@ for c in "$@"; do
   echo "$o" | grep -v "^KNOWN-FINDING" | grep -E "^VIOLATION|signature=|tier=|PATCH FAILED|HARNESS" | head -6
   if echo "$o" | grep -q "^VIOLATION"; then res="$res $c:caught"; else res="$res $c:missed"; fi
 done
-/venv/bin/python - "$P" "$N" "$base" "$mut" "$suite" "$res" "$TIER" <<'PY'
+/venv/bin/python - "$P" "$AS" "$base" "$mut" "$suite" "$res" "$TIER" <<'PY'
 import json,sys
 P,N,base,mut,suite,res,tier=sys.argv[1:]
 d=f"/verif/seeded/{P}-{N}"
@@ -28,4 +29,4 @@ json.dump({"property":P,"change":int(N),"demo_exit_unchanged":int(base),"demo_ex
  "how":"tools/seed_confirm.sh: demo run in the scratch worktree with and without patch.diff; repository suite run there with the patch; checks run via tools/mutant_run.sh against a scratch copy of /repo with the patch",
  "needs":"see notes.md (written by the independent sub-agent that produced the change)"}, open(d+"/meta.json","w"), indent=1)
 PY
-echo "RESULT $P-$N:$res"
+echo "RESULT $P-$AS:$res"
